@@ -30,7 +30,7 @@ def exhaustive(tier):
 
 def required(tier):
     return {"pair_laws": 100000, "pow_laws": 2000, "triple_laws": 10000, "hash_eq_checks": 100000,
-            "snapshots_compared": 100000, "container_invariant_evals": 100000, "pi_sets": 200, "combined_unit_dimensionality_vs_fresh": 2000, "dim_homomorphism_primed_operands": 1000, "pi_sets_all_dimensionless": 10,
+            "snapshots_compared": 100000, "container_invariant_evals": 100000, "pi_sets": 200, "identity_element_reused": 1000, "combined_unit_dimensionality_vs_fresh": 2000, "dim_homomorphism_primed_operands": 1000, "pi_sets_all_dimensionless": 10,
             "layers": 6}
 
 
@@ -283,6 +283,37 @@ def pow_laws(ck, L, dx, rec, ks):
     s = x / x
     ck.result("u/u", s, {}, **w)
     ck.eqhash("u/u==dimensionless", s, empty, True, **w)
+    # the identity element keeps working as one: u**0 and u/u, USED in further products and quotients (also
+    # with non-integer exponents), give what the empty expression gives, in the layer's own numeric type
+    if dx and L.kind in ("uc", "ph", "unit"):
+        try:
+            z = x ** L.num(F(0))
+        except Exception:  # noqa: BLE001
+            z = None
+        for e in (F(1), F(1, 2), F(-3, 2)):
+            dy = {n: v * e for n, v in dx.items()}
+            if L.nit is not F and any(v.denominator not in (1, 2) for v in dy.values()):
+                continue
+            try:
+                y = fresh(L, dy)
+                yinv = fresh(L, {n: -v for n, v in dy.items()})
+            except Exception:  # noqa: BLE001
+                continue
+            for iname, ident in (("u**0", z), ("u/u", s)):
+                if ident is None:
+                    continue
+                rec.count("identity_element_reused")
+                try:
+                    q1, q2 = ident / y, ident * y
+                except Exception as ex:  # noqa: BLE001
+                    ck.bad("identity-element-unusable", identity=iname, y=str(dy), err=repr(ex)[:200], **w)
+                    continue
+                ck.eqhash(f"({iname})/v==v**-1", q1, yinv, True, y=str(dy), **w)
+                ck.eqhash(f"({iname})*v==v", q2, y, True, y=str(dy), **w)
+                if L.nit is not float:
+                    bad_t = [repr(v) for v in L.cont(q1)._d.values() if isinstance(v, float)]
+                    if bad_t:
+                        ck.bad("float-exponent-in-exact-layer", identity=iname, y=str(dy), exponents=bad_t, **w)
     if L.kind == "uc" or L.kind == "ph":
         inv = 1 / x
         ck.result("1/u", inv, {n: -v for n, v in dx.items()}, **w)
